@@ -38,19 +38,23 @@ THEOREMS = [
     "MCHap.C14.posterior_sum_one",
     "MCHap.C14.posterior_sorted",
     "MCHap.C14.burn_exact",
+    "MCHap.C14.canonTrace_perm_invariant",
     "MCHap.C14.posterior_perm_invariant",
     "MCHap.C14.call_posterior_eq_of_sorted",
     "MCHap.C14.expectation_eq",
     "MCHap.C14.mode_is_max",
     "MCHap.C14.support_prob_def",
     "MCHap.C14.support_is_max",
+    "MCHap.C14.support_prob_empirical",
     "MCHap.C14.freq_count_occ_def",
     "MCHap.C14.freq_sum_one",
     "MCHap.C14.call_freq_def",
     "MCHap.C14.asArray_spec",
+    "MCHap.C14.incongruenceFlag_spec",
     "MCHap.C14.incongruence_spec",
     "MCHap.C14.call_incongruence_spec",
     "MCHap.C14.incongruence_two_iff_partial",
+    "MCHap.C14.orders_linear",
 ]
 RULE = ("cases: one per (trace, burn-in) with 1..4 chains, 1..60 steps, ploidy 1..6, haplotype pools of 2..5 over 1..4 SNVs "
         "(allele pools of 2..5), per-chain dominant genotypes so that genotypes repeat and chains agree / disagree, within-step "
@@ -280,13 +284,14 @@ def run_asm_trace(chk, drv, r, chains, pool, ploidy, n_base, burns, tag, Genotyp
                 break
     answers = drv.ask(reqs)
     seen_burn = set()
-    for (burn, thr), req, ans in zip(meta, reqs, answers):
+
+    def one(burn, thr, req, ans):
         case = {"family": "assemble", "chains": [[[list(pool[a]) for a in g] for g in ch] for ch in chains],
                 "burn": burn, "threshold": thr, "ploidy": ploidy, "tag": tag}
         sec = ans.split(";")
         if ans == "bad-op" or len(sec) != 10:
             chk.disagreement("driver answered bad-op / malformed reply for tr.asm", {**case, "reply": ans[:200]})
-            continue
+            return
         cnt, n = empirical(chains, burn, canon)
         noncanon = any(tuple(pool[a] for a in g) != canon(g) for ch in chains for g in ch[burn:])
         chk.count(f"asm:chains={n_chains}"); chk.count(f"asm:ploidy={ploidy}")
@@ -334,7 +339,7 @@ def run_asm_trace(chk, drv, r, chains, pool, ploidy, n_base, burns, tag, Genotyp
                      "error" if sec[8] == "error" else "ok"]
             if outcomes != m_out:
                 chk.disagreement("error behaviour on an empty retained trace differs", {**case, "impl": outcomes, "model": m_out})
-            continue
+            return
         expected = {g: Fraction(k, n) for g, k in cnt.items()}
         if first_of_burn:
             # ---------------- mode
@@ -359,6 +364,9 @@ def run_asm_trace(chk, drv, r, chains, pool, ploidy, n_base, burns, tag, Genotyp
             if len(keys) != 1:
                 chk.violation("mode_genotype_support mixes genotypes of different supports", {**case, "impl": str(s_impl)},
                               "C14/assemble/support-mixed")
+            elif next(iter(keys)) not in tot:
+                chk.violation("mode_genotype_support reports a set of haplotypes that no retained step has", {**case, "impl": str(s_impl)},
+                              "C14/assemble/support-members")
             else:
                 key = next(iter(keys))
                 exp_dist = {g: p for g, p in expected.items() if frozenset(g) == key}
@@ -450,6 +458,14 @@ def run_asm_trace(chk, drv, r, chains, pool, ploidy, n_base, burns, tag, Genotyp
                         chk.violation("assemble replicate_incongruence depends on the order of the chains",
                                       {**case, "impl": flag, "chain_order": o, "impl_reordered": f2}, SIG_F10)
                         break
+
+    for (burn, thr), req, ans in zip(meta, reqs, answers):
+        try:
+            one(burn, thr, req, ans)
+        except Exception as e:   # noqa: BLE001 - the implementation raised on a valid trace
+            chk.violation(f"the implementation raised {type(e).__name__} on a valid trace / burn-in",
+                          {"family": "assemble", "chains": [[[list(pool[a]) for a in g] for g in ch] for ch in chains],
+                           "burn": burn, "threshold": thr, "error": repr(e)[:300]}, "C14/assemble/raises")
     # metamorphic: other within-step orderings, same multisets
     arr2 = arr.copy()
     for c in range(n_chains):
@@ -492,13 +508,14 @@ def run_call_trace(chk, drv, r, chains, n_allele, ploidy, burns, sorted_rows, ta
                 break
     answers = drv.ask(reqs)
     seen_burn = set()
-    for (burn, thr), req, ans in zip(meta, reqs, answers):
+
+    def one(burn, thr, req, ans):
         case = {"family": "call", "chains": chains, "burn": burn, "threshold": thr, "ploidy": ploidy, "n_allele": n_allele,
                 "sorted_rows": sorted_rows, "tag": tag}
         sec = ans.split(";")
         if ans == "bad-op" or len(sec) != 7:
             chk.disagreement("driver answered bad-op / malformed reply for tr.call", {**case, "reply": ans[:200]})
-            continue
+            return
         # what the class sees: rows as stored (it does not sort)
         cnt_rows, n = empirical(chains, burn, ident)
         cnt, _ = empirical(chains, burn, canon)
@@ -540,7 +557,7 @@ def run_call_trace(chk, drv, r, chains, n_allele, ploidy, burns, sorted_rows, ta
                      "error" if sec[6] == "error" else "ok"]
             if outcomes != m_out:
                 chk.disagreement("error behaviour on an empty retained trace differs", {**case, "impl": outcomes, "model": m_out})
-            continue
+            return
         view = cnt if sorted_rows else cnt_rows          # the distribution over what the class treats as states
         expected = {g: Fraction(k, n) for g, k in view.items()}
         if first_of_burn:
@@ -637,6 +654,14 @@ def run_call_trace(chk, drv, r, chains, n_allele, ploidy, burns, sorted_rows, ta
                         chk.violation("call replicate_incongruence depends on the order of the chains",
                                       {**case, "impl": flag, "impl_reordered": f2}, "C14/call/replicate_incongruence-order")
 
+    for (burn, thr), req, ans in zip(meta, reqs, answers):
+        try:
+            one(burn, thr, req, ans)
+        except Exception as e:   # noqa: BLE001 - the implementation raised on a valid trace
+            chk.violation(f"the implementation raised {type(e).__name__} on a valid trace / burn-in",
+                          {"family": "call", "chains": chains, "burn": burn, "threshold": thr, "error": repr(e)[:300]},
+                          "C14/call/raises")
+
 
 def run_relabel(chk, drv, r, n_cases, Trace):
     reqs, meta = [], []
@@ -645,17 +670,24 @@ def run_relabel(chk, drv, r, n_cases, Trace):
         k = r.randint(1, 5)
         chains = [[sorted(r.randrange(k) for _ in range(ploidy)) for _ in range(n_steps)] for _ in range(n_chains)]
         labels = sorted(r.sample(range(0, 12), k))            # np.where(~mask)[0]: strictly increasing
-        reqs.append(" ".join(["tr.relabel", str(k)] + [str(x) for x in labels] + [str(n_chains), str(n_steps), str(ploidy)]
-                             + [str(a) for ch in chains for g in ch for a in g]))
-        meta.append((chains, labels, ploidy, k))
-    for (chains, labels, ploidy, k), req, ans in zip(meta, reqs, drv.ask(reqs)):
+        n_new = r.choice([None, max(labels) + 1, max(labels) + 1 + r.randint(1, 3)])   # the record's allele count
+        reqs.append(" ".join(["tr.relabel", "none" if n_new is None else str(n_new), str(k)] + [str(x) for x in labels]
+                             + [str(n_chains), str(n_steps), str(ploidy)] + [str(a) for ch in chains for g in ch for a in g]))
+        meta.append((chains, labels, ploidy, k, n_new))
+    for (chains, labels, ploidy, k, n_new), req, ans in zip(meta, reqs, drv.ask(reqs)):
         arr = np.array(chains, dtype=np.int64)
         t = Trace(arr, np.zeros(arr.shape[:2]), k)
-        t2 = t.relabel(np.array(labels))
+        t2 = t.relabel(np.array(labels)) if n_new is None else t.relabel(np.array(labels), n_allele=n_new)
+        chk.count("relabel:n_allele=None" if n_new is None else "relabel:n_allele=given")
+        if n_new is not None:
+            fr, co, oc = t2.posterior_frequencies()
+            if len(fr) != n_new or not C.close(float(np.sum(fr)), 1.0):
+                chk.violation("posterior_frequencies of a relabelled trace does not have one entry per allele of the record",
+                              {"chains": chains, "labels": labels, "n_allele": n_new, "impl": fr.tolist()}, "C14/call/relabel-n-allele")
         impl = f"{int(t2.n_allele)};{' '.join(str(int(x)) for x in t2.genotypes.ravel())}"
         chk.count("relabel")
         chk.case(req, k >= 2, sample=None)
-        case = {"family": "call", "op": "relabel", "chains": chains, "labels": labels}
+        case = {"family": "call", "op": "relabel", "chains": chains, "labels": labels, "n_allele": n_new}
         if impl != ans:
             chk.disagreement("relabel() != model relabel", {**case, "impl": impl, "model": ans})
         # metamorphic: posterior of the relabelled trace = relabelled posterior; rows stay sorted
